@@ -259,8 +259,8 @@ def plan_c18(tier):
         ws.append(R(["--set", "small", "--cap", cap, "--k", "2", "--periodic", "3", "--roundtrip", "--unsplit", "--periodic-only"]))
     # threshold sets (original-capacity logic): periodic enumeration in quick, fixpoint in thorough
     for st in ["t1k", "t2k", "t64k"]:
-        ws.append(R(["--set", st, "--k", "0", "--roundtrip", "--unsplit", "--periodic", "2", "--rounds", "40", "--periodic-only"]))
-        ws.append(R(["--set", st, "--k", "1", "--periodic", "2", "--rounds", "40", "--periodic-only"]))
+        ws.append(R(["--set", st, "--k", "0", "--roundtrip", "--unsplit", "--periodic", "4", "--rounds", "40", "--periodic-only"]))
+        ws.append(R(["--set", st, "--k", "1", "--periodic", "3", "--rounds", "40", "--periodic-only"]))
         ws.append(R(["--set", st, "--k", "0", "--appends", "--splits", "--periodic", "2", "--rounds", "40", "--periodic-only"]))
     if tier == "thorough":
         for cap in ["0", "8", "16"]:
@@ -278,7 +278,7 @@ def plan_c18(tier):
         rule="the recycle protocol as a nondeterministic transition system over the real crate (refill = reserve(n)+append, or append through Extend with exact / zero lower size hints, put_slice, put_bytes, the chunk_mut/advance_mut protocol or resize; consume by split/split_to/advance/truncate/clear with or without freeze, retention window of k parts, "
              "freeze->try_into_mut round trip, unsplit variants), explored breadth-first over canonical states (hook descriptor of the recycling handle + which block each retained part pins) TO FIXPOINT: a closed graph covers "
              "histories of every length; oracles: live heap bytes <= explicit bound in every state, (k=0) no byte-buffer-allocating transition on a cycle (Tarjan SCC), reserve on an empty sole owner of a large-enough buffer touches no allocator. "
-             "Plus exhaustive enumeration of all periodic schedules of period <= 3 (4 thorough) over the alphabet for 400 rounds. states = canonical states; distinct_nontrivial = states",
+             "Plus exhaustive enumeration of all periodic schedules of period <= 3 (4 thorough; threshold sets: <= 4 with the freeze round trip, <= 3 with a retention window, <= 2 with every appending entry point) over the alphabet for 400 (threshold sets: 40) rounds. states = canonical states; distinct_nontrivial = states",
         bounds="small sets: initial capacity {0,8,16}, n in {1,3,7}, k in {0,1} closed (k=2 thorough); threshold sets: initial capacity {1024,2048,65536}, n in {100,1000,5000} on a grid of 100 (closed graphs in thorough where they close within the state budget, periodic enumeration in quick)",
         assumptions=["retained parts are inert (only ever dropped), so only the block they pin is part of the state", "sizes are bounded as stated; a graph that does not close within the budget is reported as non-exhaustive, never as a violation"],
     )
